@@ -120,6 +120,16 @@ class Session:
         return self.world.realize(step_or_t["t"], step_or_t.get("tmod") or step_or_t.get("mod") or self.default_mod,
                                   fresh=bool(step_or_t.get("fresh_t")))
 
+    def trepr(self, step) -> str | None:
+        """repr of the realised annotation: typing's own caches may hand back an equal
+        object created earlier (other member order), which is Python's doing."""
+        if isinstance(step.get("t"), dict):
+            try:
+                return repr(self.T(step))
+            except Exception as e:  # noqa: BLE001
+                return f"<{type(e).__name__}>"
+        return None
+
     def V(self, vast):
         return model.build(vast, self.world)
 
@@ -465,7 +475,8 @@ def _cold_server(sess: Session, req_fd: int, res_fd: int):
 
                     out = props.get(sess.prop).exec_op(sess, 0, step)
                 payload = {"canon": out.canon() if out is not None else None,
-                           "canon_u": out.canon(unordered=True) if out is not None else None}
+                           "canon_u": out.canon(unordered=True) if out is not None else None,
+                           "trepr": sess.trepr(step)}
                 os.write(res_fd, (json.dumps(payload) + "\n").encode())
             except BaseException as e:  # noqa: BLE001 - report, never hang the parent
                 try:
